@@ -107,7 +107,8 @@ def run(ctx: Ctx) -> None:
 
 def _kernel(ctx: Ctx) -> None:
     repo = ctx.repo
-    fi = repo.func(MOD, "game_plan_length")
+    from sa.srcmodel import kernel_normalised
+    fi = kernel_normalised(repo.func(MOD, "game_plan_length"))
     ctx.need(fi.params == ["y", "distances", "bye_penalty"],
              "game_plan_length(y, distances, bye_penalty)")
     body = func_body(fi)
@@ -150,6 +151,11 @@ def _kernel(ctx: Ctx) -> None:
         if not (isinstance(it, ast.Call) and ast.unparse(it.func) ==
                 "range" and len(it.args) == 1):
             return False
+        if want == "days" and ast.unparse(it.args[0]) in (
+                "len(y)", "y.shape[0]"):
+            return True
+        if want == "teams" and ast.unparse(it.args[0]) == "y.shape[1]":
+            return True
         try:
             return ev.num(pre, it.args[0]) == Poly.var(want)
         except Unsupported:
